@@ -26,6 +26,34 @@ func init() {
 
 const dispTimeout = 120 * time.Millisecond
 
+// nearMissID sometimes turns a used id into an id that was never used but is close to it (padding with white space,
+// letter case, one character more or less): a reply with such an id must be ignored like any other unknown id.
+// White space travels in the op line as %20 / %09 and is put back by wireID.
+func nearMissID(r *rand.Rand, id string) string {
+	if id == "unknown" || id == "" || r.Intn(6) != 0 {
+		return id
+	}
+	switch r.Intn(7) {
+	case 0:
+		return "%20" + id
+	case 1:
+		return id + "%20"
+	case 2:
+		return id + "%09"
+	case 3:
+		return strings.ToUpper(id)
+	case 4:
+		return id + "x"
+	case 5:
+		return id[:len(id)-1]
+	}
+	return "%20" + id + "%20"
+}
+
+func wireID(id string) string {
+	return strings.NewReplacer("%20", " ", "%09", `\t`).Replace(id)
+}
+
 func (cdisp) Gen(r *rand.Rand, sessions int) []string {
 	var out []string
 	for s := 0; s < sessions; s++ {
@@ -54,6 +82,7 @@ func (cdisp) Gen(r *rand.Rand, sessions int) []string {
 						id = ids[r.Intn((len(ids)+1)/2)]
 					}
 				}
+				id = nearMissID(r, id)
 				if running {
 					out = append(out, "reply "+id+" "+pick(r, "result", "result", "error"))
 				}
@@ -390,9 +419,9 @@ func runCDisp(ops []string, emit func(string)) {
 		case "reply":
 			var fr string
 			if f[2] == "result" {
-				fr = fmt.Sprintf(`[3,"%s",{"currentTime":"2020-01-01T00:00:00Z"}]`, f[1])
+				fr = fmt.Sprintf(`[3,"%s",{"currentTime":"2020-01-01T00:00:00Z"}]`, wireID(f[1]))
 			} else {
-				fr = fmt.Sprintf(`[4,"%s","GenericError","some error",{}]`, f[1])
+				fr = fmt.Sprintf(`[4,"%s","GenericError","some error",{}]`, wireID(f[1]))
 			}
 			done := make(chan struct{})
 			go func() { _ = fc.deliver([]byte(fr)); close(done) }()
